@@ -117,6 +117,46 @@ def stale_case(args):
         sc.close()
 
 
+def write_fault_case(args):
+    """a Go-function task writes its output through FileIP.Write and the write(2) fails (disk full, quota exceeded, I/O error):
+    the task has not finished successfully, so nothing may appear at the final path and the program must not report success"""
+    seed, i = args
+    rng = random.Random(seed * 86028167 + i)
+    sp = workflows(rng, 2 * i)          # even k: the process g is a Go function
+    model = t3.run_model(sp.text())
+    sc0 = t3.Scratch()
+    try:
+        sc0.plant(sp.files)
+        ref = t3.run_impl(sc0, sp, timeout=60)
+    finally:
+        sc0.close()
+    from tools import replay as rp
+    by_gid, by_dir, order = rp.task_events(ref["hooks"])
+    gtasks = [d for d in order if d["proc"] == "g" and d["outs"]]
+    if ref["rc"] != 0 or not gtasks:
+        return None
+    victim = rng.choice(gtasks)
+    tmpfile = os.path.join(victim["dir"], os.path.normpath(victim["outs"][0][2]))
+    err = rng.choice(["ENOSPC", "EDQUOT", "EIO"])
+    sc = t3.Scratch()
+    try:
+        sc.plant(sp.files)
+        impl = t3.run_impl(sc, sp, timeout=90, strace_fault=(tmpfile, err, 1))
+        problems = t3.atomicity_problems(sp, model, impl["fs"])
+        final = os.path.normpath(victim["outs"][0][2])
+        v = impl["fs"].get(final)
+        if v is not None and v[0] == "f":
+            want = next((t["content"] for t in model["tasks"] if any(os.path.normpath(o[2]) == final for o in t["outs"])), None)
+            if v[1] != want:
+                problems.append(("partial-output", "the write of %s failed with %s, yet the final path holds %r" % (final, err, (v[1] or "")[:40])))
+        if impl["rc"] == 0 and impl["returned"]:
+            problems.append(("silent-failure", "a write(2) of a Go-function task's output failed with %s, yet the program reports completion (exit 0)" % err))
+        return {"spec": sp.text(), "bufsize": sp.bufsize, "problems": problems, "point": None, "rc": impl["rc"], "stderr": impl["stderr"][-200:], "yield": None,
+                "ntasks": len(model["tasks"]), "wall": impl["wall"], "kind": "write-fault-" + err}
+    finally:
+        sc.close()
+
+
 def run(rep, tier, seed):
     proved = vlib.prove(rep, MODULE, THEOREMS)
     ok, msg = vlib.build_ocaml()
@@ -138,10 +178,11 @@ def run(rep, tier, seed):
     results += t3.run_many(fail_case, [(seed, i) for i in range(40 if tier == "quick" else 600)])
     results += t3.run_many(kill_case, [(seed, i, 0) for i in range(40 if tier == "quick" else 1500)])
     results += t3.run_many(stale_case, [(seed, i) for i in range(16 if tier == "quick" else 300)])
+    results += [r for r in t3.run_many(write_fault_case, [(seed, i) for i in range(8 if tier == "quick" else 120)]) if r]
     t3.report_t3(rep, MODULE, proved, results, "T3 crash-point / failure / SIGKILL enumeration")
     rep.cov["evaluations"] = len(results)
     rep.cov["distinct_nontrivial"] = len({(r["spec"], r["point"], r["kind"]) for r in results})
-    rep.cov["rule"] = "fault enumeration on workflows with a two-output task (sub-directory / modified names, additional file), a Go-function or shell task and a two-input join: the process group is killed at every hit of every hook point of Task.Execute, FinalizePaths, Process.Run, createTasks and runProcs (plus a sample of port / slot points); one task fails in each of five ways (shell) or four (Go function); the process group is SIGKILLed at a random instant while commands run; histories run / delete an output but keep its audit file / re-run with a command that fails after a partial write / run again as it is; after each, every file at a declared output path must be the complete output of a successful command of its task, and nothing else may have appeared outside the temp dirs; every (workflow, point, kind) is distinct and non-trivial"
+    rep.cov["rule"] = "fault enumeration on workflows with a two-output task (sub-directory / modified names, additional file), a Go-function or shell task and a two-input join: the process group is killed at every hit of every hook point of Task.Execute, FinalizePaths, Process.Run, createTasks and runProcs (plus a sample of port / slot points); one task fails in each of five ways (shell) or four (Go function); the process group is SIGKILLed at a random instant while commands run; a write(2) of a Go-function task's output is made to fail (ENOSPC / EDQUOT / EIO, injected with strace); histories run / delete an output but keep its audit file / re-run with a command that fails after a partial write / run again as it is; after each, every file at a declared output path must be the complete output of a successful command of its task, and nothing else may have appeared outside the temp dirs; every (workflow, point, kind) is distinct and non-trivial"
     rep.cov["samples"] = [{"point": results[5]["point"], "rc": results[5]["rc"]}, results[0]["spec"]]
     kinds = {}
     for r in results:
